@@ -87,6 +87,9 @@ enum Sc {
     /// a source with more members than an f32 / a 24-bit index can address:
     /// members at odd and at even positions must both be chosen about half the time
     BigDist { flavour: u8, log2_len: u32, trials: u64, seed: u64, cells_total: u64 },
+    /// a source of 2^32 + plus zero-sized members (cheap to build): more members than a 32-bit index can
+    /// address; it is non-empty, so every conversion flavour must accept it and report its member count
+    Zst { plus: usize, rng: RngSpec },
 }
 
 const FLAVOURS: u8 = 16;
@@ -432,6 +435,65 @@ fn exec_big(f: u8, log2_len: u32, trials: u64, seed: u64, cells_total: u64, obs:
     v
 }
 
+/// Sources of 2^32 + plus zero-sized members: non-empty, so construction must succeed in every flavour
+/// that accepts a Vec / slice, `num_choices` must be the length, sampling must not panic.
+fn exec_zst(plus: usize, spec: &RngSpec, obs: &mut Obs) -> Vec<Violation> {
+    #[derive(Clone, Copy, Debug, PartialEq)]
+    struct Token;
+    let mut v = Vec::new();
+    let Some(n) = (1usize << 32).checked_add(plus) else { return v };
+    let src: Vec<Token> = vec![Token; n];
+    obs.hit("probe.zero-sized-members-2^32");
+    let mut rng = spec.build();
+    type R = Result<usize, String>;
+    let mut report = |name: &str, r: Result<R, simcore::Panicked>| match r {
+        Ok(Ok(c)) if c == n => {}
+        Ok(Ok(c)) => v.push(Violation::new(
+            "reports-the-number-of-members",
+            format!("num-choices:{name}:zst"),
+            format!("{name} built from {n} zero-sized members reports {c} choices"),
+        )),
+        Ok(Err(e)) => v.push(Violation::new(
+            "non-empty-source-accepted",
+            format!("non-empty-rejected:{name}:zst"),
+            format!("{name} rejected a source of {n} (zero-sized) members: {e}"),
+        )),
+        Err(p) => v.push(Violation::new(
+            "never-panics",
+            format!("panic:{name}:zst"),
+            format!("{name} on a source of {n} zero-sized members panicked: {}", p.message),
+        )),
+    };
+    let r = catch(|| -> R {
+        let d = IntoDistribution::<Token>::into_distribution(src.clone()).map_err(|e| format!("{e:?}"))?;
+        let _: Token = d.sample(&mut rng);
+        Ok(d.num_choices().get())
+    });
+    report("Vec.into_distribution (OneOfCloning)", r);
+    let r = catch(|| -> R {
+        let d = ToDistribution::<Token>::to_distribution(&src).map_err(|e| format!("{e:?}"))?;
+        let _: Token = d.sample(&mut rng);
+        Ok(d.num_choices().get())
+    });
+    report("Vec.to_distribution -> T (ChooseCloning)", r);
+    let r = catch(|| -> R {
+        let d = ToDistribution::<&Token>::to_distribution(&src).map_err(|e| format!("{e:?}"))?;
+        let _: &Token = d.sample(&mut rng);
+        Ok(ChoicesDistribution::num_choices(&d).get())
+    });
+    report("Vec.to_distribution -> &T (Choose)", r);
+    let r = catch(|| -> R {
+        let sl: &[Token] = &src;
+        let d = ToDistribution::<&Token>::to_distribution(sl).map_err(|e| format!("{e:?}"))?;
+        let _: &Token = d.sample(&mut rng);
+        Ok(ChoicesDistribution::num_choices(&d).get())
+    });
+    report("&[T].to_distribution -> &T (Choose)", r);
+    obs.count("draws", rng.draws());
+    obs.nontrivial(mix(0x25f, plus as u64));
+    v
+}
+
 fn exec_gen(kind: GenKind, size: usize, inner: usize, by_ref: bool, spec: &RngSpec, obs: &mut Obs) -> Vec<Violation> {
     let mut rng = spec.build();
     let probe = Probe::new();
@@ -596,7 +658,7 @@ impl Check for C18 {
 
     fn runs(&self, tier: Tier) -> u64 {
         dist_cells().len() as u64
-            + 3
+            + 6
             + match tier {
                 Tier::Quick => 3_000_000,
                 Tier::Thorough => 300_000_000,
@@ -616,6 +678,9 @@ impl Check for C18 {
             };
         }
         let big = run as usize - cells.len();
+        if (3..6).contains(&big) {
+            return Sc::Zst { plus: [0usize, 1, 12345][big - 3], rng: RngSpec::swarm(g) };
+        }
         if big < 3 {
             return Sc::BigDist {
                 flavour: [0u8, 2, 10][big],
@@ -632,6 +697,7 @@ impl Check for C18 {
                 len: match g.below(5) {
                     0 => 0,
                     1 => 1,
+                    2 if g.chance(1, 20) => *g.pick(&[9usize, 16, 63, 64, 65, 255, 256, 257, 1000, 1024, 4096]),
                     _ => g.urange(0, 8),
                 },
                 dup: g.coin(),
@@ -641,15 +707,24 @@ impl Check for C18 {
         } else {
             let kind = *g.pick(&[GenKind::VecU32, GenKind::Bits, GenKind::Plushy, GenKind::Nested, GenKind::Individual, GenKind::Population]);
             let nested = matches!(kind, GenKind::Nested | GenKind::Population);
-            Sc::Gen {
-                kind,
-                size: match g.below(6) {
+            let size = match g.below(6) {
                     0 => 0,
                     1 => 1,
                     2 => 2,
+                    // block / word / page boundaries and a few sizes in between
+                    3 if g.chance(1, 150) => {
+                        let pool = [63usize, 64, 65, 127, 128, 129, 255, 256, 257, 511, 512, 1023, 1024, 1025, 2047, 2048, 2049, 4096, 8192];
+                        let big = [65_535usize, 65_536, 65_537];
+                        let s = if g.chance(1, 8) { *g.pick(&big) } else if g.coin() { *g.pick(&pool) } else { g.urange(65, 5000) };
+                        if nested { s.min(1100) } else { s }
+                    }
                     _ => g.urange(0, if nested { 8 } else { 64 }),
-                },
-                inner: g.urange(0, 8),
+            };
+            Sc::Gen {
+                kind,
+                size,
+                // (size x inner stays far below the per-operation draw cap of the owned stream)
+                inner: if nested && size <= 64 && g.chance(1, 300) { *g.pick(&[64usize, 256, 1024, 1025]) } else { g.urange(0, 8) },
                 by_ref: g.coin(),
                 rng,
             }
@@ -662,6 +737,7 @@ impl Check for C18 {
             Sc::Choice { flavour, len, dup, samples, rng } => exec_choice(*flavour, *len, *dup, *samples, rng, obs),
             Sc::Dist { flavour, len, trials, seed, cells_total } => exec_dist(*flavour, *len, *trials, *seed, *cells_total, obs),
             Sc::BigDist { flavour, log2_len, trials, seed, cells_total } => exec_big(*flavour, *log2_len, *trials, *seed, *cells_total, obs),
+            Sc::Zst { plus, rng } => exec_zst(*plus, rng, obs),
         }
     }
 
@@ -690,7 +766,7 @@ impl Check for C18 {
                     out.push(Sc::Choice { flavour: *flavour, len: *len, dup: *dup, samples: *samples, rng: RngSpec::seeded(rng.seed) });
                 }
             }
-            Sc::Dist { .. } | Sc::BigDist { .. } => {}
+            Sc::Dist { .. } | Sc::BigDist { .. } | Sc::Zst { .. } => {}
         }
         out
     }
